@@ -16,6 +16,9 @@ OPTSETS = {
     "blksize": (("blksize", 1024),),
     "tsize": (("tsize", 0),),
     "all": (("blksize", 600), ("timeout", 2), ("tsize", 0), ("windowsize", 3)),
+    # an unknown option with an empty value (RFC 2090 `multicast`), alone and next to a known one
+    "unknown-empty": (("multicast", ""),),
+    "known+unknown-empty": (("blksize", 1024), ("multicast", "")),
 }
 
 
@@ -213,6 +216,33 @@ def run_config(v, ctx, tftpd, tier, combo, rng):
             if not srv.alive():
                 v.note_inconclusive(f"{cfgname}: server exited (status {srv.exit_status()}) during the sequence: {srv.log_tail(300)}")
                 break
+        # a download that the client aborts (ERROR after DATA 1) or abandons (silence, timeout 1 s): a read request
+        # has no effect on disk however it ends
+        if srv.alive():
+            before = N.snapshot(sb["root"])
+            socks = []
+            for how in ("error", "silence"):
+                evaluations += 1
+                s = N._sock(timeout=1.5)
+                socks.append(s)
+                tr0 = N.Transfer()
+                s.sendto(N.enc_req(N.RRQ, "exist_long.bin", options=[("timeout", 1)]), srv.addr)
+                k0, f0, peer = N.recv(s, tr0)
+                if k0 == "OACK":
+                    s.sendto(N.enc_ack(0), peer)
+                    k0, f0, _ = N.recv(s, tr0)
+                if k0 == "DATA" and how == "error":
+                    s.sendto(N.enc_error(3, b"disk full on the client"), peer)
+            __import__("time").sleep(7.5)      # the abandoned transfer gives up after 6 tries
+            for s in socks:
+                s.close()
+            diff = N.snap_diff(before, N.snapshot(sb["root"]))
+            if diff:
+                v.violation("C06/rrq-fs-effect", f"{cfgname}: downloads of exist_long.bin that the client aborted / abandoned changed the filesystem: {diff[:3]}",
+                            {"engine": "net", "config": cfgname, "request": ["RRQ", "exist_long.bin", "aborted with ERROR after DATA 1 / abandoned"], "server_args": srv.args})
+            else:
+                distinct.add((cfgname, "aborted-download"))
+                outcomes["aborted-download-no-effect"] = outcomes.get("aborted-download-no-effect", 0) + 1
         # a client endpoint with a transfer in progress sends a request that must be refused: the refusal still comes, from
         # the listening port, and nothing changes on disk
         if srv.alive():
